@@ -18,33 +18,38 @@ type txSpec struct {
 
 // termKindCoverage (rule engine E1): the kinds of ast.Term a function handles are the case
 // labels of its type switches over ast.Term values, plus the kinds unwrapped before such a
-// switch by `if x, ok := v.(K); ok { v = x.Field }`, plus comma-ok assertions `v.(K)`.
+// switch by `if x, ok := v.(K); ok { v = x.Field }`, plus comma-ok assertions `v.(K)` - in the function
+// itself and in the functions of its own package that it reaches through static calls.
 func termKindCoverage(c *core.Ctx, rule string, specs []txSpec) {
 	for _, sp := range specs {
 		f := c.MustFunc(rule, sp.rel, sp.fn)
 		if f == nil {
 			continue
 		}
-		info := f.Pkg.TypesInfo
 		handled := map[string]bool{}
-		for _, ts := range core.TypeSwitches(info, f.Decl.Body) {
-			if core.TypeName(ts.TagType) != "ast.Term" {
-				continue
+		// the function and the helpers of its own package it calls (a case may have been moved into a helper)
+		scope := c.Prog.ReachableFuncs([]*core.Func{f}, map[string]bool{sp.rel: true})
+		for _, g := range scope {
+			info := g.Pkg.TypesInfo
+			for _, ts := range core.TypeSwitches(info, g.Decl.Body) {
+				if core.TypeName(ts.TagType) != "ast.Term" {
+					continue
+				}
+				for _, k := range ts.CaseList {
+					handled[k] = true
+				}
 			}
-			for _, k := range ts.CaseList {
-				handled[k] = true
-			}
-		}
-		ast.Inspect(f.Decl.Body, func(n ast.Node) bool {
-			ta, ok := n.(*ast.TypeAssertExpr)
-			if !ok || ta.Type == nil {
+			ast.Inspect(g.Decl.Body, func(n ast.Node) bool {
+				ta, ok := n.(*ast.TypeAssertExpr)
+				if !ok || ta.Type == nil {
+					return true
+				}
+				if core.TypeName(info.TypeOf(ta.X)) == "ast.Term" {
+					handled[core.TypeName(info.TypeOf(ta.Type))] = true
+				}
 				return true
-			}
-			if core.TypeName(info.TypeOf(ta.X)) == "ast.Term" {
-				handled[core.TypeName(info.TypeOf(ta.Type))] = true
-			}
-			return true
-		})
+			})
+		}
 		var missing []string
 		for _, r := range sp.required {
 			if !handled[r] {
